@@ -712,6 +712,11 @@ def reset_discipline(sym):
     rc = [ast.dump(x) for x in body_wo_doc(method(base, '_reset_cache_'))]
     need(rc == [D("self._reset_only_my_cache_()"), D("for child in self._children_:\n    child._reset_cache_()")],
          'SymbolicExpression._reset_cache_: not `reset this node, then every child`')
+    # ... for EVERY node: no expression class of symbolic.py overrides _reset_cache_ (an override that does not recurse would leave
+    # the state of a sub-tree - e.g. of a nested query used as an operand - behind)
+    overriding = [c.name for c in ast.walk(sym) if isinstance(c, ast.ClassDef) and c.name != 'SymbolicExpression'
+                  and any(isinstance(m, ast.FunctionDef) and m.name == '_reset_cache_' for m in c.body)]
+    need(not overriding, f'_reset_cache_ is overridden by {overriding}: the reset no longer reaches every node of the tree')
     ro = [ast.dump(x) for x in body_wo_doc(method(base, '_reset_only_my_cache_'))]
     need(D("self._seen_parent_values_by_parent_ = {}") in ro, 'SymbolicExpression._reset_only_my_cache_: the per-parent seen sets are not emptied')
     return ok, at_start
